@@ -1,0 +1,16 @@
+//go:build verif
+// +build verif
+
+package stanza
+
+// Verification hooks (build tag "verif"); see ../verif_on.go.
+const verifEnabled = true
+
+// VerifHook, when set, is called at every hook point of this package.
+var VerifHook func(name string, kv ...interface{})
+
+func vpoint(name string, kv ...interface{}) {
+	if h := VerifHook; h != nil {
+		h(name, kv...)
+	}
+}
